@@ -124,6 +124,8 @@ def run(out: Outcome, drv):
         while len({id(b) for b, *_ in items}) < nbase and tries < nbase * 5:
             tries += 1
             base = gen.GENERATORS[fn](rng, 8 if out.tier == "quick" else 14)
+            if base.get("decimal_f32"):
+                continue        # decimal bounds are exact for comparisons only; an offset would round them
             if fn == "climatology" and rng.random() < 0.5:
                 for m in base["members"]:
                     if m.get("period") is not None:
